@@ -50,7 +50,7 @@ ASSUMPTIONS = [
 MINIMA = {"quick": {"entry_point_runs": 250, "repo_open_events": 300, "error_path_runs": 60, "cli_runs": 10}, "thorough": {"entry_point_runs": 2500}}
 MECH = "read-only"
 DATA = os.path.join(os.environ.get("VF_REPO", "/repo"), "tests", "data")
-ENTRY = ["vmdk-desc", "vmdk-delta", "vmdk-mono", "vhdx-diff", "vhdx-path", "hdd", "hdd-abs", "hdd-snap", "vmtar", "hyperv", "xmlcfg", "vmx", "cli", "cli-errors", "streams", "filehandles"]
+ENTRY = ["vmdk-desc", "vmdk-delta", "vmdk-mono", "vhdx-diff", "vhdx-path", "hdd", "hdd-abs", "hdd-snap", "vmtar", "hyperv", "xmlcfg", "vmx", "cli", "cli-errors", "cli-interrupt", "streams", "filehandles"]
 
 
 def plan(tier: str, seed: int) -> list[dict]:
@@ -59,7 +59,7 @@ def plan(tier: str, seed: int) -> list[dict]:
     for ep in ENTRY:
         for r in range(reps):
             cases.append({"k": ep, "r": r, "fault": None})
-            if ep not in ("cli", "cli-errors", "streams", "xmlcfg", "vmx") and r % 2 == 0:
+            if ep not in ("cli", "cli-errors", "cli-interrupt", "streams", "xmlcfg", "vmx") and r % 2 == 0:
                 cases.append({"k": ep, "r": r, "fault": ["truncate", "garbage", "missing", "ioerror"][(r // 2) % 4]})
     cases.append({"k": "repo-tests", "r": 0, "fault": None, "weight": 60})
     cases.append({"k": "static-scan", "r": 0, "fault": None})
@@ -260,7 +260,7 @@ def build_and_run(k: str, rng, ctx, root: Path, fault, res, phase: str = "both")
             (root / "config.pvs").write_text(wcfg.gen_pvs(rng)[0])
         elif k == "vmx":
             (root / "vm.vmx").write_text(wcfg.gen_vmx(rng)[0])
-        elif k in ("cli", "cli-errors"):
+        elif k in ("cli", "cli-errors", "cli-interrupt"):
             d1, d2 = bytes(rng.randrange(256) for _ in range(16)), bytes(rng.randrange(256) for _ in range(16))
             key = wenv.derive(d1, d2)
             payload = bytes(rng.getrandbits(8) for _ in range(rng.randrange(0, 3000)))
@@ -374,6 +374,43 @@ def build_and_run(k: str, rng, ctx, root: Path, fault, res, phase: str = "both")
                 from dissect.hypervisor.descriptor.vmx import VMX
 
                 return call(lambda: VMX.parse((root / "vm.vmx").read_text()).disks())
+            if k == "cli-interrupt":
+                # the tool interrupted (Ctrl-C) or failing (disk full) at an arbitrary point of its run: the evidence must
+                # be untouched whatever clean-up the tool attempts. The point is a source-free failpoint: the n-th line
+                # event inside the repository raises.
+                from dissect.hypervisor.tools import envelope as tool
+
+                env = root / st["env"]
+                outs = [out_dir / "full.bin", out_dir / "partial.bin"]
+                ctx.audit.allow_write_paths = {str(p) for p in outs}
+                argv = sys.argv
+                last = None
+                try:
+                    sys.argv = ["envelope-decrypt", str(env), "-ks", str(root / "encryption.info"), "-o", str(outs[0])]
+                    s0 = ctx.steps.steps
+                    tool.main()
+                    total = max(ctx.steps.steps - s0, 1)
+                    for rep in range(6):
+                        exc = KeyboardInterrupt() if rep % 2 == 0 else OSError(28, "No space left on device (injected)")
+                        ctx.steps.arm_failpoint(rng.randrange(1, total + 1), exc)
+                        sys.argv = ["envelope-decrypt", str(env), "-ks", str(root / "encryption.info"), "-o", str(outs[1])]
+                        try:
+                            tool.main()
+                            last = "completed"
+                        except (KeyboardInterrupt, SystemExit, Exception) as e:  # noqa: BLE001
+                            last = type(e).__name__
+                        finally:
+                            ctx.steps.failpoint = None
+                        cnt["cli_runs_interrupted"] = cnt.get("cli_runs_interrupted", 0) + int(last != "completed")
+                        res["sets"].setdefault("interrupt_sites", []).append(str(ctx.steps.failpoint_fired_at))
+                        if not env.exists():
+                            res["viol"].append({"what": "the input envelope is gone after an interrupted envelope-decrypt run", "mech": MECH,
+                                                "detail": {"interrupted_at": ctx.steps.failpoint_fired_at, "outcome": last}})
+                            break
+                finally:
+                    sys.argv = argv
+                cnt["cli_runs"] = cnt.get("cli_runs", 0) + 1
+                return call(lambda: last)
             if k in ("cli", "cli-errors"):
                 from dissect.hypervisor.tools import envelope as tool
 
